@@ -105,3 +105,287 @@ func headsOf(dag []Chg) []int {
 	sort.Ints(h)
 	return h
 }
+
+// ---------------------------------------------------------------- script worlds
+//
+// A script builds the replicas through the object tree's OWN operations: remote AddRawChanges batches (several
+// concurrent branches of different lengths, delivered in one or more batches, possibly shuffled), LOCAL AddContent
+// (plain and snapshot) on whatever heads the replica has at that moment, exchanges between replicas (the receiver gets
+// the sender's stored sequence or a prefix of it) and reopen points.  The DAG is not an input of such a case, it is
+// what the replicas made of the script (the parents / snapshot base of a local change are chosen by the tree).
+// Locally created changes keep their real CID on the replica that created them; for every other replica they are
+// rendered like any remote change under the abstract id (>= 10000) the script gave them.
+
+type Op struct {
+	K       string  `json:"k"` // raw | content | snapshot | sync | reopen
+	P       int     `json:"p"`
+	New     []Chg   `json:"new,omitempty"`     // raw: the remotely authored changes
+	Batches [][]int `json:"batches,omitempty"` // raw: delivery batches
+	ID      int     `json:"id,omitempty"`      // content/snapshot: abstract id of the local change
+	Pad     int     `json:"pad,omitempty"`
+	From    int     `json:"from,omitempty"` // sync: the sending replica
+	Upto    int     `json:"upto,omitempty"` // sync: length of the prefix of the sender's stored sequence (0 = all)
+}
+
+type Script struct {
+	NP   int  `json:"np"`
+	Root Chg  `json:"root"`
+	Ops  []Op `json:"ops"`
+}
+
+type scriptWorld struct {
+	peers      []*Peer
+	dag        []Chg
+	dm         map[int]Chg
+	contentErr int
+	localOnMulti int // local changes created on a tree with >= 2 heads
+	localOnSkew  int // ... where the head with the greatest id was not the last iterated one
+}
+
+func childless(dm map[int]Chg, ids []int) []int {
+	has := map[int]bool{}
+	for _, id := range ids {
+		for _, p := range dm[id].Prev {
+			has[p] = true
+		}
+	}
+	var h []int
+	for _, id := range ids {
+		if !has[id] {
+			h = append(h, id)
+		}
+	}
+	sort.Ints(h)
+	return h
+}
+
+// lastIteratedHead: the head that comes last in the replica's own iteration
+func lastIteratedHead(p *Peer) int {
+	it, _ := p.Iter()
+	hs := p.Heads()
+	for i := len(it) - 1; i >= 0; i-- {
+		if contains(hs, it[i]) {
+			return it[i]
+		}
+	}
+	return 0
+}
+
+func greatestHead(p *Peer) int {
+	hs := p.tree.Heads()
+	if len(hs) == 0 {
+		return 0
+	}
+	m := hs[0]
+	for _, h := range hs {
+		if h > m {
+			m = h
+		}
+	}
+	return p.in.N(m)
+}
+
+// applyOp executes one operation on the real replicas and records what it created.
+func (sw *scriptWorld) applyOp(op Op) {
+	if op.P < 0 || op.P >= len(sw.peers) {
+		return
+	}
+	p := sw.peers[op.P]
+	switch op.K {
+	case "raw":
+		var ids []int
+		for _, c := range op.New {
+			if _, dup := sw.dm[c.ID]; dup || c.ID <= 0 {
+				continue
+			}
+			sw.dm[c.ID] = c
+			sw.dag = append(sw.dag, c)
+			ids = append(ids, c.ID)
+		}
+		path := p.Path()
+		for _, b := range op.Batches {
+			var bb []int
+			for _, id := range b {
+				if _, ok := sw.dm[id]; ok {
+					bb = append(bb, id)
+				}
+			}
+			if len(bb) > 0 {
+				_, _ = p.AddRaw(sw.dm, bb, childless(sw.dm, bb), path, 0)
+			}
+		}
+	case "content", "snapshot":
+		if _, dup := sw.dm[op.ID]; dup || op.ID <= 0 {
+			return
+		}
+		multi := len(p.Heads()) >= 2
+		skew := multi && lastIteratedHead(p) != greatestHead(p)
+		c, err := p.AddContent(op.ID, op.K == "snapshot", op.Pad, int64(1700000000+op.ID))
+		if err != nil {
+			sw.contentErr++
+			return
+		}
+		sw.dm[c.ID] = c
+		sw.dag = append(sw.dag, c)
+		if multi {
+			sw.localOnMulti++
+		}
+		if skew {
+			sw.localOnSkew++
+		}
+	case "sync":
+		if op.From < 0 || op.From >= len(sw.peers) || op.From == op.P {
+			return
+		}
+		q := sw.peers[op.From]
+		ids, _, _ := q.Stored()
+		if op.Upto > 0 && op.Upto < len(ids) && len(q.Path()) == 1 {
+			ids = ids[:op.Upto]
+			_, _ = p.AddRaw(sw.dm, ids, childless(sw.dm, ids), q.Path(), 0)
+		} else {
+			_, _ = p.AddRaw(sw.dm, ids, q.Heads(), q.Path(), 0)
+		}
+	case "reopen":
+		_ = p.Reopen()
+	}
+}
+
+func newScriptWorld(w *World, s *Script) *scriptWorld {
+	sw := &scriptWorld{dm: map[int]Chg{s.Root.ID: s.Root}, dag: []Chg{s.Root}}
+	np := s.NP
+	if np < 1 {
+		np = 1
+	}
+	if np > 6 {
+		np = 6
+	}
+	for i := 0; i < np; i++ {
+		sw.peers = append(sw.peers, w.NewPeer(s.Root))
+	}
+	return sw
+}
+
+func runScript(w *World, s *Script) *scriptWorld {
+	sw := newScriptWorld(w, s)
+	for _, op := range s.Ops {
+		sw.applyOp(op)
+	}
+	return sw
+}
+
+// genScript drives real replicas while it generates, so that every operation is chosen against the state the
+// replicas really are in (current heads, attached changes, tree root).
+func genScript(w *World, g *vlib.Rand) (*Script, *scriptWorld) {
+	used := map[int]bool{}
+	newID := func() int {
+		for {
+			v := 1 + g.Intn(9999)
+			if !used[v] {
+				used[v] = true
+				return v
+			}
+		}
+	}
+	nextLocal := 10000
+	s := &Script{NP: 2 + g.Intn(2), Root: Chg{ID: newID(), IsSnap: true}}
+	sw := newScriptWorld(w, s)
+	do := func(op Op) {
+		s.Ops = append(s.Ops, op)
+		sw.applyOp(op)
+	}
+	nOps := 4 + g.Intn(9)
+	localProb := 2 + g.Intn(3)
+	for len(s.Ops) < nOps {
+		pi := g.Intn(s.NP)
+		p := sw.peers[pi]
+		switch k := g.Intn(10); {
+		case k < 4:
+			// a remote batch: 1-3 concurrent branches of different lengths growing out of changes the replica has
+			att, _ := p.Iter()
+			if len(att) == 0 {
+				continue
+			}
+			heads := p.Heads()
+			rootNow := p.in.N(p.tree.Root().Id)
+			var nw []Chg
+			var branches [][]int
+			nb := 1 + g.Intn(3)
+			for b := 0; b < nb; b++ {
+				start := att[g.Intn(len(att))]
+				if g.Chance(1, 2) && len(heads) > 0 {
+					start = heads[g.Intn(len(heads))]
+				}
+				ln := 1 + g.Intn(4)
+				var br []int
+				prev := start
+				for j := 0; j < ln; j++ {
+					c := Chg{ID: newID(), Prev: []int{prev}, Snap: rootNow}
+					if g.Chance(1, 2) {
+						c.Pad = g.Intn(300)
+					}
+					if j == ln-1 && g.Chance(1, 12) {
+						c.IsSnap = true
+					}
+					nw = append(nw, c)
+					br = append(br, c.ID)
+					prev = c.ID
+				}
+				branches = append(branches, br)
+			}
+			all := make([]int, len(nw))
+			for i, c := range nw {
+				all[i] = c.ID
+			}
+			var batches [][]int
+			switch g.Intn(4) {
+			case 0: // everything at once, creation order
+				batches = [][]int{all}
+			case 1: // everything at once, shuffled (the wait list sorts it out)
+				pm := g.Perm(len(all))
+				sh := make([]int, len(all))
+				for i, j := range pm {
+					sh[i] = all[j]
+				}
+				batches = [][]int{sh}
+			case 2: // branch by branch
+				batches = branches
+			default: // round robin over the branches, one change per call
+				for j := 0; j < 4; j++ {
+					for _, br := range branches {
+						if j < len(br) {
+							batches = append(batches, []int{br[j]})
+						}
+					}
+				}
+			}
+			do(Op{K: "raw", P: pi, New: nw, Batches: batches})
+			if len(p.Heads()) >= 2 && g.Chance(1, localProb) {
+				nextLocal++
+				do(Op{K: "content", P: pi, ID: nextLocal, Pad: g.Intn(200)})
+			}
+		case k < 7:
+			nextLocal++
+			op := Op{K: "content", P: pi, ID: nextLocal, Pad: g.Intn(200)}
+			if g.Chance(1, 5) {
+				op.K = "snapshot"
+			}
+			do(op)
+		case k < 9:
+			from := g.Intn(s.NP)
+			if from == pi {
+				continue
+			}
+			op := Op{K: "sync", P: pi, From: from}
+			if g.Chance(1, 3) {
+				ids, _, _ := sw.peers[from].Stored()
+				if len(ids) > 2 {
+					op.Upto = 1 + g.Intn(len(ids)-1)
+				}
+			}
+			do(op)
+		default:
+			do(Op{K: "reopen", P: pi})
+		}
+	}
+	return s, sw
+}
